@@ -353,6 +353,20 @@ def cases(rng, tier, n=None):
         out.append(_stretch_case(rng))
     for i in range(nq):
         out.append(_seq_case(rng, clean=(i % 3 == 0)))
+    # the float-code decoder (glue) on the codes used above plus random bit patterns
+    pool = [c for k in out[:nf] for c in k['input'][0]]
+    for _ in range(max(20, nf // 5)):
+        r = rng.random()
+        if r < 0.5 and pool:
+            c = rng.choice(pool)
+        elif r < 0.8:
+            c = rng.randint(-(0x7FEFFFFFFFFFFFFF), 0x7FEFFFFFFFFFFFFF)
+        else:
+            c = rng.choice([0, 1, -1, 2 ** 52 - 1, 2 ** 52, 2 ** 52 + 1, 0x7FEFFFFFFFFFFFFF, -0x7FEFFFFFFFFFFFFF,
+                            code(0.5), code(1.0), code(-2.0), code(5e-324), code(2.2250738585072014e-308)])
+        out.append({'op': 'fdec', 'input': c})
+    # interleave so that every vm shard gets a similar mix (sequence cases are the expensive ones)
+    rng.shuffle(out)
     return out
 
 
@@ -378,7 +392,7 @@ def impl(case):
     if op == 'q2s':
         sps = uncode(a[1])
         ts = [uncode(c) for c in a[0]]
-        return [[sl.quantize_to_step(t, sps) for t in ts], _me(sps), [_me(t) for t in ts]]
+        return [sl.quantize_to_step(t, sps) for t in ts]
     if op == 'q2s_rel':
         t, spq, qpm = uncode(a[0]), a[1], uncode(a[2])
         sps = sl.steps_per_quarter_to_steps_per_second(spq, qpm)
@@ -388,14 +402,32 @@ def impl(case):
         s1 = sl.quantize_to_step(t, sl.steps_per_quarter_to_steps_per_second(spq, qpm))
         s2 = sl.quantize_to_step(t * f, sl.steps_per_quarter_to_steps_per_second(spq, qpm / f))
         return [s1, s2]
+    if op == 'fdec':
+        return _me(uncode(a))
     if op in ('abs', 'rel'):
         ns = _build(case)
+        win = nsio.to_wire(ns, tfun=code, qfun=code)
         try:
             out = _call(case, ns)
         except Exception as e:  # noqa
             return ['EXC', type(e).__name__]
-        return ['OK', nsio.to_wire(out, tfun=code, qfun=code)]
+        return ['OK', _delta(op == 'rel', win, nsio.to_wire(out, tfun=code, qfun=code))]
     raise ValueError(op)
+
+
+def _delta(rel, i, o):
+    """The output sequence with every time printed as (time_out - time_in); mirrors Run/C01.v dSeq."""
+    def dl(f, a, b):
+        return [len(b), [f(x, y) for x, y in zip(a, b)]]
+
+    def t0(x, y):       # first field is the time
+        return [y[0] - x[0]] + list(y[1:])
+    notes = dl(lambda x, y: [y[0], y[1], y[2] - x[2], y[3] - x[3]] + list(y[4:]), i[0], o[0])
+    tempos = o[1] if rel else dl(lambda x, y: [y[0] - x[0], y[1] - x[1]], i[1], o[1])
+    tsigs = o[2] if rel else dl(t0, i[2], o[2])
+    return [notes, tempos, tsigs, dl(t0, i[3], o[3]), dl(t0, i[4], o[4]), dl(t0, i[5], o[5]), dl(t0, i[6], o[6]),
+            dl(t0, i[7], o[7]), o[8] - i[8], o[9], o[10], o[11], [o[12][0] - i[12][0], o[12][1] - i[12][1]],
+            o[13], o[14] - i[14]]
 
 
 # ------------------------------------------------------------------ model
@@ -407,6 +439,8 @@ def model_input(case):
         return [2, a[0], a[1], a[2]]
     if op == 'stretch':
         return None
+    if op == 'fdec':
+        return [6, a]
     tag = 3 if op == 'abs' else 4
     return [tag, a['res'], nsio.to_wire(_build(case), tfun=code, qfun=code)]
 
@@ -427,7 +461,9 @@ def _norm_me(p):
 def model_output(case, m):
     op = case['op']
     if op == 'q2s':
-        return [m[0], _norm_me(m[1]), [_norm_me(p) for p in m[2]]]
+        return m
+    if op == 'fdec':
+        return _norm_me(m)
     if op == 'q2s_rel':
         return [m[0], _norm_me(m[1])]
     if m[0] == -1000:
@@ -667,6 +703,8 @@ def oracle(case, io):
             if v:
                 return {'kind': v, 't': t.hex(), 'spq': spq, 'qpm': qpm.hex(), 'got': s, 'want': math.floor(p + _HALF)}
         return None
+    if op == 'fdec':
+        return None
     if op == 'stretch':
         t, spq, qpm, f = uncode(a[0]), a[1], uncode(a[2]), uncode(a[3])
         s1, s2 = io
@@ -683,7 +721,7 @@ def nontrivial(case, io):
     op, a = case['op'], case['input']
     if op == 'q2s':
         return len(a[0]) > 0
-    if op in ('q2s_rel', 'stretch'):
+    if op in ('q2s_rel', 'stretch', 'fdec'):
         return True
     if io[0] == 'EXC':
         return True
